@@ -813,4 +813,34 @@ def replay(prop, rp, path):
         import remap_tv
 
         return remap_tv.replay(prop, rp, path)
+    if rp.get("engine") == "tv" and kind in ("flatten", "simplify", "construct"):
+        # re-run the real pass natively on the recorded program and vectors
+        cmd = [T.TVDUMP] + rp["args"] + [str(rp["id"]), rp["vectors"]]
+        if rp["args"][-1] == "reuse-wide":
+            import re as _re
+            sol = rp.get("solver") or {}
+            m = _re.search(r"trace ([LRB]+)", sol.get("where") or " ".join(sol.get("problems") or []))
+            cmd.append(m.group(1) if m else "")
+        rc, out, _ = T.run(cmd)
+        res = []
+        for line in out.splitlines():
+            try:
+                y = json.loads(line)
+                if "ok" in y:
+                    res.append(y)
+            except Exception:
+                pass
+        bad = [y for y in res if not y.get("ok")]
+        print(json.dumps(bad[:3], indent=1))
+        if not res:
+            print("replay produced no evaluations")
+            return 2
+        if bad:
+            print("VIOLATION property=%s replay=%s" % (prop, path))
+            return 1
+        return 0
+    if rp.get("engine") == "ex":
+        import ex_units
+
+        return ex_units.replay_file(prop, rp, path)
     return 2
